@@ -83,6 +83,8 @@ FUNCS = [
     ("rtrlib/rtr/packets.c", "rtr_pdu_convert_header_byte_order", {"mem": ["pdu"], "writes": True}),
     ("rtrlib/rtr/packets.c", "rtr_pdu_header_to_host_byte_order", {"mem": ["pdu"], "writes": True}),
     ("rtrlib/rtr/packets.c", "rtr_pdu_header_to_network_byte_order", {"mem": ["pdu"], "writes": True}),
+    ("rtrlib/rtr/packets.c", "rtr_receive_pdu", {"xworld": "struct rtr_socket", "mem": ["pdu"], "writes": True, "memlocals": ["header"],
+                                                  "opaque": ["txt"]}),
     ("rtrlib/rtr/packets.c", "rtr_wait_for_sync", {"xworld": "struct rtr_socket", "localbuf": "pdu"}),
     ("rtrlib/rtr/packets.c", "rtr_sync", {"xworld": "struct rtr_socket", "localbuf": "pdu"}),
     ("rtrlib/rtr/packets.c", "rtr_send_serial_query", {"xworld": "struct rtr_socket"}),
@@ -112,7 +114,7 @@ INT_TYPES = {
 }
 BSWAP = {"ntohl": 32, "htonl": 32, "__bswap_32": 32, "__builtin_bswap32": 32, "__uint32_identity": None,
          "ntohs": 16, "htons": 16, "__bswap_16": 16, "__builtin_bswap16": 16}
-IGNORED_CALLS = {"lrtr_dbg"}
+IGNORED_CALLS = {"lrtr_dbg", "snprintf"}
 # calls that leave the translated code: answered by the world (RtrModel/CSem.lean `World`), arguments recorded
 EXTERN = {"lrtr_get_monotonic_time": "time", "tr_send": "io", "tr_recv": "io"}
 # In a function translated over an `XWorld σ` (option "xworld": the record σ the function works on, e.g. struct rtr_socket) EVERY
@@ -134,6 +136,9 @@ EXTERNX = {
     "rtr_handle_error_pdu": {"ret": True, "inout": 0}, "rtr_handle_cache_response_pdu": {"ret": True, "inout": 0},
     "rtr_send_error_pdu_from_host": {"ret": True, "args": [2, 3]},
     "rtr_sync_receive_and_store_pdus": {"ret": True, "inout": 0}, "rtr_set_last_update": {"ret": True, "inout": 0},
+    "tr_recv_all": {"ret": True, "fill": (1, 2), "args": [2, 3]},
+    "rtr_send_error_pdu_from_network": {"ret": True, "recbytes": (1, 2), "args": [2, 3, 5]},
+    "rtr_pdu_footer_to_host_byte_order": {"fill": (0, None)},
 }
 NORETURN = {"pthread_exit"}
 
@@ -599,6 +604,11 @@ def emit_structs():
 # expression translation
 # ------------------------------------------------------------------------------------------
 
+def bound_of(v):
+    """upper bound (Lean Nat text) of the object a pointer value points into"""
+    return getattr(v, "bound", None) or "msize"
+
+
 class V:
     """translated expression: Lean text, type, list of guards (Lean Bool terms that must be true)"""
 
@@ -654,6 +664,7 @@ class Fn:
         self.xstate = opts.get("xworld")      # C record the external calls may change (XWorld σ)
         self.done_wrap = False                # inside a stepwise loop body: results are `.done r`
         self.aux = []             # auxiliary definitions (loops), in dependency order
+        self.memlocals = set(opts.get("memlocals", []))
         self.nloops = 0
         self.params = []          # (cname, Ty, mode)  mode in scalar/value/inout/mem
         self.vars = {}            # cname -> {"ty": Ty, "mode": ...}
@@ -855,9 +866,16 @@ class Fn:
                 if info["mode"] in ("value", "inout"):
                     # a pointer parameter in value mode used as a value: only as call argument / -> base
                     return V(self.ln(name), Ty("ptr", elem=info["ty"].elem, name="valueptr:" + info.get("alias", name)))
+                if info["mode"] == "memobj":
+                    pv = V(info["base"], Ty("ptr", elem=info["objty"].elem if info["objty"].kind == "array" else info["objty"]))
+                    pv.bound = info["bound"]
+                    return pv
                 if info["mode"] == "local" and name not in env["defined"] and info["ty"].kind != "struct":
                     return V("__UNINIT__", info["ty"], ["false"])
-                return V(self.ln(name), info["ty"])
+                pv = V(self.ln(name), info["ty"])
+                if info.get("bound"):
+                    pv.bound = info["bound"]
+                return pv
             if name in self.tu.globals:
                 v, t = self.tu.globals[name]
                 ty = parse_type(t)
@@ -887,7 +905,9 @@ class Fn:
                 return self.as_bool(v)
             if v.ty.kind == "ptr" and (v.ty.name or "").startswith("valueptr:"):
                 return v
-            return V(v.text, to, v.guards)
+            r = V(v.text, to, v.guards)
+            r.bound = getattr(v, "bound", None)
+            return r
         if ck == "ToVoid":
             v = self.expr(sub, env, "val")
             return V("()", Ty("void"), v.guards)
@@ -923,6 +943,13 @@ class Fn:
         if op == "*":
             return self.mem_load(n, env)
         if op == "&":
+            if self.uses_mem:
+                r = self.mem_addr(sub, env)
+                if r is not None:
+                    addr, gs, ty, bnd = r
+                    pv = V(addr, Ty("ptr", elem=ty), gs)
+                    pv.bound = bnd
+                    return pv
             # address of an lvalue path in value mode: only as call argument
             path = self.lvalue_path(sub, env)
             return self.addr_of(path, n)
@@ -1040,9 +1067,12 @@ class Fn:
         if b.ty.kind != "int" or op not in ("+", "-"):
             bad("unsupported pointer arithmetic", n)
         sz = self.ptr_elem_size(a.ty, n)
+        bnd = bound_of(a)
         if b.const is not None and sval(b.const, b.ty) >= 0 and op == "+":
             txt = "(%s + %d)" % (a.text, sval(b.const, b.ty) * sz)
-            return V(txt, a.ty, gs + ["(decide (%s ≤ msize))" % txt])
+            r = V(txt, a.ty, gs + ["(decide (%s ≤ %s))" % (txt, bnd)])
+            r.bound = bnd
+            return r
         if b.ty.signed:
             off = "(%s * %d)" % (dot(b.text, "toInt"), sz)
             txt = "(Int.toNat (%s %s %s))" % ("(%s : Int)" % a.text, op, off)
@@ -1051,17 +1081,19 @@ class Fn:
             if op == "-":
                 gs = gs + ["(decide (%s * %d ≤ %s))" % (dot(b.text, "toNat"), sz, a.text)]
             txt = "(%s %s %s * %d)" % (a.text, op, dot(b.text, "toNat"), sz) if sz != 1 else "(%s %s %s)" % (a.text, op, dot(b.text, "toNat"))
-        gs = gs + ["(decide (%s ≤ msize))" % txt]
-        return V(txt, a.ty, gs)
+        gs = gs + ["(decide (%s ≤ %s))" % (txt, bnd)]
+        r = V(txt, a.ty, gs)
+        r.bound = bnd
+        return r
 
-    def mem_load_at(self, addr, ty, gs, n):
+    def mem_load_at(self, addr, ty, gs, n, bnd="msize"):
         if ty.kind == "bool":
             w = 1
         elif ty.kind == "int":
             w = ty.bits // 8
         else:
             bad("load of type %r from memory" % (ty,), n)
-        gs = gs + ["(decide (%s + %d ≤ msize))" % (addr, w)]
+        gs = gs + ["(decide (%s + %d ≤ %s))" % (addr, w, bnd)]
         if ty.kind == "bool":
             return V("(C.load8 mem %s != 0#8)" % addr, ty, gs)
         return V("(C.load%d mem %s)" % (ty.bits, addr), ty, gs)
@@ -1072,7 +1104,7 @@ class Fn:
             bad("dereference outside memory mode", n)
         p = self.expr(n["inner"][0], env)
         ty = parse_type(n["type"])
-        return self.mem_load_at(p.text, ty, p.guards, n)
+        return self.mem_load_at(p.text, ty, p.guards, n, bound_of(p))
 
     def mem_addr(self, n, env):
         """address (Lean Nat text, guards, type) of an lvalue in memory mode, or None"""
@@ -1089,16 +1121,31 @@ class Fn:
                 rec = p.ty.elem.name
                 off = PROBE.offset(self.tu.rel, rec, fname)
                 addr = p.text if off == 0 and not PROBE.pending() else "(%s + %d)" % (p.text, off)
-                return (addr, p.guards, parse_type(n["type"]))
+                return (addr, p.guards, parse_type(n["type"]), bound_of(p))
             r = self.mem_addr(base, env)
             if r is None:
                 return None
             bt = parse_type(base["type"])
             off = PROBE.offset(self.tu.rel, bt.name, fname)
-            return ("(%s + %d)" % (r[0], off), r[1], parse_type(n["type"]))
+            return ("(%s + %d)" % (r[0], off), r[1], parse_type(n["type"]), r[3])
         if k == "UnaryOperator" and n.get("opcode") == "*":
             p = self.expr(n["inner"][0], env)
-            return (p.text, p.guards, parse_type(n["type"]))
+            return (p.text, p.guards, parse_type(n["type"]), bound_of(p))
+        if k == "DeclRefExpr":
+            name = n.get("referencedDecl", {}).get("name")
+            info = self.vars.get(name)
+            if info is not None and info["mode"] == "memobj":
+                return (info["base"], [], info["objty"], info["bound"])
+            return None
+        if k == "ArraySubscriptExpr":
+            base, idx = n["inner"]
+            b = self.expr(base, env)
+            if b.ty.kind != "ptr" or (b.ty.name or "").startswith("valueptr:"):
+                return None
+            i = self.expr(idx, env)
+            fake = {"kind": "BinaryOperator", "opcode": "+", "type": {"qualType": "x"}, "_line": n.get("_line")}
+            pv = self.ptr_arith(fake, b, i, "+", list(b.guards) + list(i.guards))
+            return (pv.text, pv.guards, parse_type(n["type"]), bound_of(pv))
         return None
 
     # ---- lvalues in value mode -----------------------------------------------------------
@@ -1166,10 +1213,14 @@ class Fn:
         if self.uses_mem:
             r = self.mem_addr(n, env)
             if r is not None:
-                addr, gs, ty = r
+                addr, gs, ty, bnd = r
                 if ty.kind == "array":
-                    return V(addr, Ty("ptr", elem=ty.elem), gs)
-                return self.mem_load_at(addr, ty, gs, n)
+                    pv = V(addr, Ty("ptr", elem=ty.elem), gs)
+                    pv.bound = bnd
+                    return pv
+                if ty.kind == "struct":
+                    bad("a whole record is read from memory", n)
+                return self.mem_load_at(addr, ty, gs, n, bnd)
         p = self.lvalue_path(n, env)
         info = self.vars[p["root"]]
         if info["mode"] == "local" and info["ty"].kind == "struct":
@@ -1265,7 +1316,7 @@ class Fn:
             self.find_calls(c, strict, out)
         if k == "CallExpr":
             name = self.callee_name(n)
-            if name in self.translated or self.is_extern(name) or self.inlinable(name):
+            if self.is_extern(name) or name in self.translated or self.inlinable(name):
                 if not strict:
                     bad("call of '%s' under a short-circuit operator" % name, n)
                 out.append(n)
@@ -1355,10 +1406,30 @@ class Fn:
         lines = []
         if "inout" in spec:
             lines.append("let %s : %s := st_" % (self.ln(sv), struct_lean_name(self.root.xstate)))
+        if "recbytes" in spec:
+            pv = self.expr(args[spec["recbytes"][0]], env)
+            ln_ = self.expr(args[spec["recbytes"][1]], env)
+            if ln_.const is None or ln_.const > 64:
+                bad("'%s': the number of recorded bytes is not a small constant" % name, n)
+            gs += pv.guards + ["(decide (%s + %d ≤ %s))" % (pv.text, ln_.const, bound_of(pv))]
+            for i in range(ln_.const):
+                rec.append("(BitVec.setWidth 64 (C.load8 mem (%s + %d)))" % (pv.text, i))
         if "outbuf" in spec:
             if not self.uses_mem:
                 bad("'%s' fills a buffer but the function has no memory object" % name, n)
             lines.append("let mem : Nat → BitVec 8 := C.memOfBytes buf_")
+        if "fill" in spec:
+            if not self.uses_mem:
+                bad("'%s' fills a buffer but the function has no memory object" % name, n)
+            pv = self.expr(args[spec["fill"][0]], env)
+            if spec["fill"][1] is None:
+                cnt = "(%s - %s)" % (bound_of(pv), pv.text)
+                gs += pv.guards
+            else:
+                ln_ = self.as_int(self.expr(args[spec["fill"][1]], env), Ty("int", 64, False))
+                cnt = str(ln_.const) if ln_.const is not None else dot(ln_.text, "toNat")
+                gs += pv.guards + ln_.guards + ["(decide (%s + %s ≤ %s))" % (pv.text, cnt, bound_of(pv))]
+            lines.append("let mem : Nat → BitVec 8 := C.memFill mem %s %s buf_" % (pv.text, cnt))
         env2 = copy_env(env)
         if "out64" in spec:
             a = args[spec["out64"]]
@@ -1385,7 +1456,7 @@ class Fn:
         else:
             n["_hoisted"] = V("()", Ty("void"))
         body = "\n".join(lines + [k(env2)])
-        if "outbuf" in spec:
+        if "outbuf" in spec or "fill" in spec:
             call = 'C.xcallBuf w "%s" [%s] %s' % (name, ", ".join(rec), self.ln(sv))
             return self.guarded(gs, "match %s with\n| (rc_, aux_, st_, buf_, w) =>\n%s" % (call, indent(body, 2)))
         call = 'C.xcall w "%s" [%s] %s' % (name, ", ".join(rec), self.ln(sv))
@@ -1415,7 +1486,12 @@ class Fn:
         if callee.uses_mem:
             if not self.uses_mem:
                 bad("call of memory-mode function '%s' from a function without memory" % name, n)
-            texts += ["mem", "msize"]
+            bnd = "msize"
+            for (pname, pty, pmode), a in zip(callee.params, args):
+                if pmode == "mem":
+                    bnd = bound_of(self.expr(a, env))
+                    break
+            texts += ["mem", bnd]
         for (pname, pty, pmode), a in zip(callee.params, args):
             if pmode in ("value", "inout"):
                 v = self.expr(a, env)
@@ -1643,8 +1719,18 @@ class Fn:
                     env2["defined"].add(name)
                     return ("let mem : Nat → BitVec 8 := fun _ => 0#8\nlet msize : Nat := %d\nlet %s : Nat := 0\n%s"
                             % (ty.n, self.ln(name), go(j + 1, env2)))
-                if ty.kind == "array" and ty.elem.kind == "int" and ty.elem.bits == 8 and any(
-                        c.get("kind") == "StringLiteral" for c in d.get("inner", [])):
+                if self.uses_mem and name in self.root.memlocals and ty.kind in ("struct", "array"):
+                    # an object whose address is taken: it lives in memory, at an address of its own beyond every buffer
+                    if [c for c in d.get("inner", []) if "kind" in c and not c["kind"].endswith("Attr")]:
+                        bad("initialiser of an object that lives in memory", d)
+                    self.root.nstack = getattr(self.root, "nstack", 0) + 1
+                    base = "(C.STACK + %d)" % (4096 * self.root.nstack)
+                    size = PROBE.size(self.tu.rel, d["type"].get("desugaredQualType") or d["type"]["qualType"])
+                    self.vars[name] = {"ty": Ty("ptr", elem=ty), "mode": "memobj", "base": base, "objty": ty,
+                                       "bound": "(C.STACK + %d)" % (4096 * self.root.nstack + size)}
+                    return go(j + 1, env)
+                if ty.kind == "array" and ty.elem.kind == "int" and ty.elem.bits == 8 and (any(
+                        c.get("kind") == "StringLiteral" for c in d.get("inner", [])) or name in self.root.opts.get("opaque", [])):
                     # a message text: only ever handed to a callee that is not translated
                     self.vars[name] = {"ty": ty, "mode": "opaque"}
                     return go(j + 1, env)
@@ -1724,6 +1810,17 @@ class Fn:
                 return nxt(env)
             if name == "memset":
                 return self.memset(s, env, nxt)
+            if name == "memcpy" and self.uses_mem:
+                d0, s0 = self.expr(s["inner"][1], env), self.expr(s["inner"][2], env)
+                if d0.ty.kind == "ptr" and s0.ty.kind == "ptr" and not (d0.ty.name or "").startswith("valueptr") and not (s0.ty.name or "").startswith("valueptr"):
+                    if not self.writes_mem:
+                        bad("memcpy in a function not declared as writing memory", s)
+                    ln_ = self.as_int(self.expr(s["inner"][3], env), Ty("int", 64, False))
+                    cnt = str(ln_.const) if ln_.const is not None else dot(ln_.text, "toNat")
+                    gs = d0.guards + s0.guards + ln_.guards + ["(decide (%s + %s ≤ %s))" % (d0.text, cnt, bound_of(d0)),
+                                                                "(decide (%s + %s ≤ %s))" % (s0.text, cnt, bound_of(s0)),
+                                                                "(decide (%s + %s ≤ %s ∨ %s + %s ≤ %s))" % (d0.text, cnt, s0.text, s0.text, cnt, d0.text)]
+                    return self.guarded(gs, "let mem : Nat → BitVec 8 := C.memcpy mem %s %s %s\n%s" % (d0.text, s0.text, cnt, nxt(env)))
             if name == "memcpy":
                 dst, src = self.bytes_arg(s["inner"][1], env), self.bytes_arg(s["inner"][2], env)
                 self.check_whole_size(s["inner"][3], dst, src, s)
@@ -1762,8 +1859,17 @@ class Fn:
             return ctx["cont"](env)
         if k == "DoStmt":
             return self.loop(s, env, ctx, cond=s["inner"][1], body=s["inner"][0], inc=None, test_first=False)
-        if k in ("GotoStmt", "LabelStmt"):
-            bad("jumps are not translated", s)
+        if k == "LabelStmt":
+            return self.stmt(s["inner"][-1], env, ctx)
+        if k == "GotoStmt":
+            tgt = s.get("targetLabelDeclId")
+            lab = self.root.labels.get(tgt)
+            if lab is None or self.prefix or self.root.done_wrap:
+                bad("goto to something else than a label of the function's outermost block", s)
+            lst, idx, top_ctx = lab
+            if idx <= getattr(self, "cur_top", -1) and False:
+                bad("backward goto", s)
+            return self.stmts(lst, idx, env, top_ctx)
         bad("unsupported statement", s)
 
     def var_lean_type(self, name):
@@ -1898,6 +2004,8 @@ class Fn:
                     v = self.as_bool(v)
             env3 = copy_env(env2)
             env3["defined"].add(name)
+            if ty.kind == "ptr" and getattr(v, "bound", None) and not self.vars[name].get("bound"):
+                self.vars[name]["bound"] = v.bound
             tytxt = "Nat" if ty.kind == "ptr" else ty.lean()
             return self.guarded(v.guards, "let %s : %s := %s\n%s" % (self.ln(name), tytxt, v.text, nxt(env3)))
         return self.with_calls([rhs], env, fin)
@@ -1946,12 +2054,12 @@ class Fn:
             bad("store to memory in a function not declared as writing", s)
 
         def fin(env2):
-            addr, gs, ty = self.mem_addr(lhs, env2)
+            addr, gs, ty, bnd = self.mem_addr(lhs, env2)
             if ty.kind != "int":
                 bad("store of non-integer", s)
             v = self.as_int(self.expr(rhs, env2), ty)
             w = ty.bits // 8
-            gs = list(gs) + list(v.guards) + ["(decide (%s + %d ≤ msize))" % (addr, w)]
+            gs = list(gs) + list(v.guards) + ["(decide (%s + %d ≤ %s))" % (addr, w, bnd)]
             return self.guarded(gs, "let mem : Nat → BitVec 8 := C.store%d mem %s %s\n%s" % (ty.bits, addr, v.text, nxt(env2)))
         return self.with_calls([lhs, rhs], env, fin)
 
@@ -2074,7 +2182,13 @@ class Fn:
             if self.ret.kind == "void":
                 return self.some_result(self.result_value(None))
             return "none"
-        txt = self.stmt(body, env, {"next": fall_off})
+        self.labels = {}
+        top = body.get("inner", [])
+        top_ctx = {"next": fall_off}
+        for i, st in enumerate(top):
+            if st.get("kind") == "LabelStmt":
+                self.labels[st.get("declId")] = (top, i, top_ctx)
+        txt = self.stmt(body, env, top_ctx)
         if "__UNINIT__" in txt:
             pass
         head = "def %s %s : Option (%s) :=" % (self.name, self.sig(), self.result_type())
